@@ -217,4 +217,53 @@ theorem sameGroup_iff (p q : GPoint) : sameGroup p q = true ↔
     | false => exact Or.inl rfl
     | true => exact Or.inr (h3 hb)
 
+theorem mem_insertSorted (x : String) : ∀ (l : List String) (t : String), t ∈ insertSorted x l ↔ t = x ∨ t ∈ l := by
+  intro l
+  induction l with
+  | nil => intro t; simp [insertSorted]
+  | cons y ys ih =>
+    intro t
+    unfold insertSorted
+    split
+    · simp
+    · simp only [List.mem_cons, ih]
+      constructor
+      · rintro (h | h | h) <;> simp [h]
+      · rintro (h | h | h) <;> simp [h]
+
+theorem mem_sortStrings : ∀ (l : List String) (t : String), t ∈ sortStrings l ↔ t ∈ l := by
+  intro l
+  induction l with
+  | nil => intro t; simp [sortStrings]
+  | cons y ys ih =>
+    intro t
+    have : sortStrings (y :: ys) = insertSorted y (sortStrings ys) := rfl
+    rw [this, mem_insertSorted, ih]; simp
+
+/-- `sortStrings` really sorts (what `sort.Strings` guarantees) -/
+theorem sortedLe_insertSorted (x : String) : ∀ (l : List String), sortedLe l = true → sortedLe (insertSorted x l) = true
+  | [], _ => by simp [insertSorted, sortedLe]
+  | [y], _ => by
+    unfold insertSorted
+    split
+    · rename_i h; simp [sortedLe, h]
+    · rename_i h
+      have : y ≤ x := (String.le_total x y).resolve_left h
+      simp [insertSorted, sortedLe, this]
+  | y :: z :: r, hs => by
+    have hyz : y ≤ z ∧ sortedLe (z :: r) = true := by simpa [sortedLe] using hs
+    unfold insertSorted
+    split
+    · rename_i h; simp [sortedLe, h, hyz.1, hyz.2]
+    · rename_i h
+      have hyx : y ≤ x := (String.le_total x y).resolve_left h
+      have ih := sortedLe_insertSorted x (z :: r) hyz.2
+      unfold insertSorted at ih ⊢
+      split
+      · rename_i h2; simp [sortedLe, hyx, h2, hyz.2]
+      · rename_i h2
+        split at ih
+        · exact absurd ‹_› h2
+        · simp [sortedLe, hyz.1, ih]
+
 end Kap.C06
